@@ -497,8 +497,10 @@ def frames_of(base):
 
 def pick(idx, quick, rnd, every=False):
     """positions among idx: all (thorough / every) or first two, one in the middle, last two"""
-    if every or not quick or len(idx) <= 5:
+    if every or len(idx) <= 5:
         return list(idx)
+    if not quick:                         # thorough: every position up to 40, else 40 evenly spread ones
+        return list(idx) if len(idx) <= 40 else sorted({idx[(j * (len(idx) - 1)) // 39] for j in range(40)})
     return sorted({idx[0], idx[1], idx[len(idx) // 2], idx[-2], idx[-1], idx[rnd.randrange(len(idx))]})
 
 
